@@ -128,7 +128,8 @@ def run(ses):
     arrs = []
     for i in range(2):
         a = object.__new__(A.Array)
-        for k_, v in dict(fs=None, url=f"img{i}", byte_ranges=[(0, 2)], shape=(1, 1), dtype="uint16", type_code="IU2",
+        # two products with identical image names, shapes and chunking: only the filesystem differs
+        for k_, v in dict(fs=("filesystem-of-product", i), url="IMG-HH-same-name", byte_ranges=[(0, 2)], shape=(1, 1), dtype="uint16", type_code="IU2",
                           records_per_chunk=1, chunk_offsets={0: {"offset": 0, "size": 2}}).items():
             object.__setattr__(a, k_, v)
         arrs.append(a)
